@@ -831,6 +831,8 @@ class Escape:
             defs = f.local_defs(key.id)
             if defs and all(norm(d) in (f"next(iter({r}))", f"next(iter({r}.keys()))") for d in defs):
                 return True
+        if k in (f"next(iter({r}))", f"next(iter({r}.keys()))"):
+            return True  # the same, written in place
         # d[k] = v earlier on every path (membership established by a dominating store)
         for st, t, v in f.assigns():
             if isinstance(t, ast.Subscript) and norm(t.value) == r and norm(t.slice) == k and f.before(st, node):
